@@ -80,8 +80,15 @@ func (wise) Generate(r *rand.Rand, o Opts) *Statement {
 		if r.Intn(4) == 0 {
 			ref = tg.free()
 		}
+		// the fee can be charged on the target side instead of the source side
+		// (separate columns); on a same-currency row the effect is the same
+		asTargetFee := false
 		rec := func(idp, status, dir, feeAmt, feeCur, srcAmt, srcCur, tgtName, tgtAmt, tgtCur, rate string) string {
-			return csvLine(',', wiseField(idp+"-"+id), status, dir, wiseField(created), wiseField(finished), feeAmt, feeCur, "", "", wiseField(owner), srcAmt, srcCur, wiseField(tgtName), tgtAmt, tgtCur, rate, wiseField(ref), "")
+			sfa, sfc, tfa, tfc := feeAmt, feeCur, "", ""
+			if asTargetFee {
+				sfa, sfc, tfa, tfc = "", "", feeAmt, feeCur
+			}
+			return csvLine(',', wiseField(idp+"-"+id), status, dir, wiseField(created), wiseField(finished), sfa, sfc, tfa, tfc, wiseField(owner), srcAmt, srcCur, wiseField(tgtName), tgtAmt, tgtCur, rate, wiseField(ref), "")
 		}
 		note := ""
 		switch k := r.Intn(20); {
@@ -115,6 +122,10 @@ func (wise) Generate(r *rand.Rand, o Opts) *Statement {
 			note = fmt.Sprintf("%s spend %s %s paid with %s %s (+fee %s): 2 transactions", day, ta.Fixed(), tc, a.Fixed(), src, f.Fixed())
 			st.feature("foreign-spend-row")
 		case k <= 9: // incoming transfer
+			if !f.IsZero() && r.Intn(2) == 0 {
+				asTargetFee = true
+				st.feature("target-fee")
+			}
 			lines = append(lines, rec("TRANSFER", "COMPLETED", "IN", f.Fixed(), src, a.Fixed(), src, owner, a.Fixed(), src, "1.0"))
 			st.Txns = append(st.Txns, Txn{Date: day, Import: eff(src, a, src, f.Neg()), Row: st.BookingRows, Note: "transfer in",
 				Others: wiseOthers(fee, f, src, "", Dec{}, "", Dec{}, "", "Expenses:TBD", a.Neg(), src)})
@@ -124,6 +135,10 @@ func (wise) Generate(r *rand.Rand, o Opts) *Statement {
 			kind := []string{"CARD_TRANSACTION", "TRANSFER"}[r.Intn(2)]
 			feeS := f.Fixed()
 			rate := []string{"1.00000000", "1.0", "1"}[r.Intn(3)]
+			if !f.IsZero() && r.Intn(3) == 0 {
+				asTargetFee = true
+				st.feature("target-fee")
+			}
 			lines = append(lines, rec(kind, "COMPLETED", "OUT", feeS, src, a.Fixed(), src, target, a.Fixed(), src, rate))
 			st.Txns = append(st.Txns, Txn{Date: day, Import: eff(src, a.Neg(), src, f.Neg()), Row: st.BookingRows, Note: "spend",
 				Others: wiseOthers(fee, f, src, "", Dec{}, "", Dec{}, "", "Expenses:TBD", a, src)})
